@@ -313,4 +313,29 @@ CHECKS = {
                    "Sub-frame offsets/divisions are timing metadata, not identity, and are not judged here.",
         assumptions=["Lancero cards have distinct device numbers (Configure rejects repeats)"],
     ),
+    "C16": dict(
+        pkg=".", hdir="root", test="TestVerif_C16(Crash)?", ids=["C16", "C16CRASH"], wal=True,
+        env={"VERIF_NO_GLOBAL_CHANNELS": "1"},
+        quick=dict(shards=32, checks=1, per_test={"TestVerif_C16": 20, "TestVerif_C16Crash": 1}, timeout=900),
+        thorough=dict(shards=48, checks=1, per_test={"TestVerif_C16": 300, "TestVerif_C16Crash": 12}, timeout=3400),
+        technique="stateful property-based testing (rapid) of the real status publisher against a last-message-per-topic model; round trip through the real save and the start-up read path; "
+                  "fault enumeration: kill -9 on entry to every file-system call of a save (strace syscall injection) followed by the start-up read path",
+        rule="(a,b) rapid-generated histories of 1-30 status updates over 3, 8 or all 21 topics (real tags, incl. no-save and no-publish ones; 3 value "
+             "variants per topic, so repeats and unchanged values are frequent; values of the persisted structures generated per field incl. "
+             "hostile strings such as 'true', '~', 'a: b', paths with spaces/unicode/quotes) with interleaved SENDALLs, published through the real "
+             "RunClientUpdater and read by a SUB socket (NEWDASTARD probes as markers); a third of the cases wait for the updater's own delayed "
+             "save and run the start-up read path (the viper calls of cmd/dastard's setupViper + the UnmarshalKey sequence of RunRPCServer/PrepareRun). "
+             "(c) rapid-generated pairs (old, new) of values of 1-8 persistent topics; a child process saves 'old', a traced dry run of saving 'new' "
+             "enumerates every file-system call touching the config directory, then one child per call is killed on entry to it. "
+             "non-trivial = (a) >= 3 topics, a changed value and >= 2 SENDALLs / (c) >= 4 kill points; distinct = FNV-64 of the case",
+        level_text="After every SENDALL the subscriber must receive exactly one message per topic published so far in the run, equal to that topic's "
+                   "latest JSON, and nothing else. After the updater's save, a fresh start-up must read back the latest simpulse/triangle/lancero/"
+                   "abaco/roach configurations, record lengths, trigger settings and base path. After a kill on entry to any file-system call of a "
+                   "save, the configuration file must exist, be non-empty and parse, and the start-up read path must yield the complete old or the "
+                   "complete new values.",
+        level_note="NEWDASTARD and the internal no-publish tags are documented as carrying no state and are not expected in a replay. Edge-multi "
+                   "settings are documented as not restored and are generated as off. If strace cannot inject (no ptrace), the crash part is "
+                   "reported as inconclusive. A kill whose call ordinal does not come up in that run is counted as 'kill-missed', not judged.",
+        assumptions=["values are JSON-serialisable (they arrive by JSON-RPC)", "kill = SIGKILL of the process; no power loss (page cache survives)"],
+    ),
 }
